@@ -1634,6 +1634,14 @@ def _slice_lower(p, f: Func, e, var: str) -> Optional[Tuple[object]]:
     return None
 
 
+def _is_percent(p, f: Func, e) -> bool:
+    """e is the literal b'%', written in place or as a module-level constant."""
+    if isinstance(e, ast.Constant):
+        return e.value == b'%'
+    v = p.fold(f.module, e, None, f) if isinstance(e, (ast.Name, ast.Attribute)) else UNKNOWN
+    return v is not UNKNOWN and isinstance(v, bytes) and v == b'%'
+
+
 def _emission(stmt) -> Optional[Tuple[str, str, ast.AST]]:
     """('+=' | 'append', accumulator name, emitted value)."""
     if isinstance(stmt, ast.AugAssign) and isinstance(stmt.op, ast.Add) and isinstance(stmt.target, ast.Name):
@@ -1659,19 +1667,92 @@ def _decode_args(call: ast.Call):
     return codec, errors
 
 
-def _check_decode_path(run, f: Func, klen: int) -> Optional[ast.For]:
+def _is_table(p, f: Func, e) -> bool:
+    """e denotes the module's _HEX_TO_BYTE: the global itself or a local of f bound once to it (`table = _HEX_TO_BYTE`)."""
+    if p.resolve_expr(f.module, e, f) == URI + '._HEX_TO_BYTE':
+        return True
+    if isinstance(e, ast.Name) and e.id not in f.params():
+        b = _assignments(f.node, e.id)
+        return len(b) == 1 and b[0][1] is not None and p.resolve_expr(f.module, b[0][1], f) == URI + '._HEX_TO_BYTE'
+    return False
+
+
+def _is_table_get(p, f: Func, e) -> bool:
+    """e denotes the bound method `_HEX_TO_BYTE.get` (directly or through a local bound once to it)."""
+    if isinstance(e, ast.Attribute) and e.attr == 'get' and _is_table(p, f, e.value):
+        return True
+    if isinstance(e, ast.Name) and e.id not in f.params():
+        b = _assignments(f.node, e.id)
+        return len(b) == 1 and isinstance(b[0][1], ast.Attribute) and b[0][1].attr == 'get' and _is_table(p, f, b[0][1].value)
+    return False
+
+
+def _none_atom(e, var: str) -> Optional[bool]:
+    """e is `var is None` / `var == None` (-> True: the atom holds when the value is None) or `var is not None` /
+    `var != None` (-> False); operands in either order.  None: e is no such comparison."""
+    if not (isinstance(e, ast.Compare) and len(e.ops) == 1 and isinstance(e.ops[0], (ast.Is, ast.IsNot, ast.Eq, ast.NotEq))):
+        return None
+    a, b = e.left, e.comparators[0]
+    if isinstance(b, ast.Name) and isinstance(a, ast.Constant):
+        a, b = b, a
+    if isinstance(a, ast.NamedExpr):
+        a = a.target
+    if not (isinstance(a, ast.Name) and a.id == var and isinstance(b, ast.Constant) and b.value is None):
+        return None
+    return isinstance(e.ops[0], (ast.Is, ast.Eq))
+
+
+def _get_lookup(p, f: Func, call: ast.Call, parent, hexmap) -> dict:
+    """`v = _HEX_TO_BYTE.get(K)` (default absent or None), v a local bound only there: a dict whose values are never None
+    answers None exactly for the keys `_HEX_TO_BYTE[K]` raises KeyError for.  The reads of v are `v is None` /
+    `v is not None` tests and ONE other read -- the use of the table byte.  Returns {'var', 'key', 'use', 'bind'}."""
+    if call.keywords or not (1 <= len(call.args) <= 2) or (len(call.args) == 2 and not (
+            isinstance(call.args[1], ast.Constant) and call.args[1].value is None)):
+        raise UnknownIdiom('%s: %s (a default other than None is not read)' % (f.qual, short(call, 60)))
+    if any(v is None for v in hexmap.values()):
+        raise UnknownIdiom('%s: _HEX_TO_BYTE has a None value: %s does not tell a missing key from a present one' % (f.qual, short(call, 60)))
+    holder = parent.get(id(call))
+    if isinstance(holder, ast.NamedExpr) and holder.value is call:
+        var, bind = holder.target.id, holder
+    elif isinstance(holder, ast.Assign) and holder.value is call and len(holder.targets) == 1 and isinstance(holder.targets[0], ast.Name):
+        var, bind = holder.targets[0].id, holder
+    elif isinstance(holder, ast.AnnAssign) and holder.value is call and isinstance(holder.target, ast.Name):
+        var, bind = holder.target.id, holder
+    else:
+        raise UnknownIdiom('%s: the result of %s is not bound to a local' % (f.qual, short(call, 60)))
+    if var in f.params() or len(_assignments(f.node, var)) != 1:
+        raise UnknownIdiom('%s: %s (result of %s) has other bindings' % (f.qual, var, short(call, 60)))
+    own = {id(x) for x in walk_self(f.node)}
+    if any(isinstance(x, ast.Name) and x.id == var and id(x) not in own for x in ast.walk(f.node)):
+        raise UnknownIdiom('%s: %s is shared with a nested function' % (f.qual, var))
+    uses = []
+    for x in walk_self(f.node):
+        if isinstance(x, ast.Name) and x.id == var and isinstance(x.ctx, ast.Load):
+            par = parent.get(id(x))
+            if _none_atom(par, var) is None:
+                uses.append(x)
+    if len(uses) != 1:
+        raise UnknownIdiom('%s: %s (result of %s) is read %d times besides the None tests' % (f.qual, var, short(call, 60), len(uses)))
+    return {'var': var, 'key': call.args[0], 'use': uses[0], 'bind': bind}
+
+
+def _check_decode_path(run, f: Func, klen: int, hexmap=None) -> Optional[ast.For]:
     """The token loop(s) of one decoder path; returns the (first) loop (None if f has none).  A path may hold more
     than one loop with a table lookup (an optimistic pass with the try hoisted out of the loop, then the careful one):
-    each is read on its own, and `_exactly_once` decides on the paths that every token is emitted once."""
+    each is read on its own, and `_exactly_once` decides on the paths that every token is emitted once.
+    A lookup is `_HEX_TO_BYTE[K]` or `v = _HEX_TO_BYTE.get(K)` (see _get_lookup)."""
     p = run.project
     parent = enclosing_map(f.node)
-    lookups = [n for n in walk_self(f.node) if isinstance(n, ast.Subscript) and isinstance(n.ctx, ast.Load)
-               and p.resolve_expr(f.module, n.value, f) == URI + '._HEX_TO_BYTE']
-    if not lookups:
+    lookups = [n for n in walk_self(f.node) if isinstance(n, ast.Subscript) and isinstance(n.ctx, ast.Load) and _is_table(p, f, n.value)]
+    gets = [n for n in walk_self(f.node) if isinstance(n, ast.Call) and _is_table_get(p, f, n.func)]
+    if not lookups and not gets:
         return None
     cfg = cfg_of(f, p)
     run.use_cfg(cfg)
     infos = [_check_one_lookup(run, f, klen, lk, cfg, parent) for lk in lookups]
+    for c in gets:
+        g = _get_lookup(p, f, c, parent, hexmap or {})
+        infos.append(_check_one_lookup(run, f, klen, g['use'], cfg, parent, get=g))
     _exactly_once(run, f, cfg, infos)
     return infos[0]['loop']
 
@@ -1682,18 +1763,29 @@ def _catches_key_error(p, f: Func, h: ast.ExceptHandler) -> bool:
     return h.type is None or any(q in ('builtins.KeyError', 'builtins.LookupError', 'builtins.Exception', 'builtins.BaseException') for q in quals)
 
 
-def _membership_guard(p, f: Func, cfg, loop: ast.For, stmt, lk):
+def _membership_guard(p, f: Func, cfg, loop: ast.For, stmt, lk, get=None):
     """The lookup `_HEX_TO_BYTE[K]` in `stmt` runs only on the outcome "K is a key" of a test `K in _HEX_TO_BYTE`
     (`not in`, negations, conjuncts: decided with `implied` on the dominating branch edge), K the same expression / the
-    same once-bound loop local.  Returns None when there is no such test, else (test node, statements that run in the
+    same once-bound loop local.  With `get` (see _get_lookup) the statement uses the local v = _HEX_TO_BYTE.get(K) and
+    the test is `v is None` / `v is not None`: "v is not None" is "K is a key" (no value of the table is None).
+    Returns None when there is no such test, else (test node, statements that run in the
     iteration when K is NOT a key -- from the other outcome of that test up to the loop header, a straight line).
     The case split is the one try / except KeyError makes: a dict subscription raises KeyError iff the key is absent."""
     from .common import implied
-    key_dump = ast.dump(lk.slice)
+    key_dump = ast.dump(lk.slice) if get is None else None
+
+    def polarity(e) -> Optional[bool]:
+        """True: the atom e holds iff K is a key; False: iff K is missing; None: no atom."""
+        if get is not None:
+            r = _none_atom(e, get['var'])
+            return None if r is None else (not r)
+        if (isinstance(e, ast.Compare) and len(e.ops) == 1 and isinstance(e.ops[0], (ast.In, ast.NotIn))
+                and _is_table(p, f, e.comparators[0]) and ast.dump(e.left) == key_dump):
+            return isinstance(e.ops[0], ast.In)
+        return None
 
     def is_atom(e):
-        return (isinstance(e, ast.Compare) and len(e.ops) == 1 and isinstance(e.ops[0], (ast.In, ast.NotIn))
-                and p.resolve_expr(f.module, e.comparators[0], f) == URI + '._HEX_TO_BYTE' and ast.dump(e.left) == key_dump)
+        return polarity(e) is not None
 
     from .common import nodes_within
     inside = nodes_within(cfg, [loop])
@@ -1702,6 +1794,7 @@ def _membership_guard(p, f: Func, cfg, loop: ast.For, stmt, lk):
     if not s_ids:
         return None
     found = None
+    inverted = None
     for t in cfg.live_nodes():
         if t.kind != 'test' or t.id not in inside or t.copy:
             continue
@@ -1713,24 +1806,36 @@ def _membership_guard(p, f: Func, cfg, loop: ast.For, stmt, lk):
                 r = implied(t.ast, l == 'T', lambda e, a=a: e is a)
                 if r is None:
                     continue
-                present = r if isinstance(a.ops[0], ast.In) else (not r)
+                present = r if polarity(a) else (not r)
                 if not present:
+                    inverted = t
                     continue
                 others = [(y2, l2) for (y2, l2) in cfg.succ[t.id] if l2 in ('T', 'F') and l2 != l]
                 if len(others) != 1:
                     raise UnknownIdiom('%s: test %s' % (f.qual, short(t.ast, 60)))
                 y2, l2 = others[0]
                 r2 = implied(t.ast, l2 == 'T', lambda e, a=a: e is a)
-                if r2 is None or (r2 if isinstance(a.ops[0], ast.In) else (not r2)):
+                if r2 is None or (r2 if polarity(a) else (not r2)):
                     # the other outcome is not just "the key is missing" (a further conjunct): what the arm does with a
                     # well-formed escape is outside what is read here
                     raise UnknownIdiom('%s: the other outcome of %s does not mean the key is missing' % (f.qual, short(t.ast, 60)))
                 found = (t, y, y2)
     if found is None:
-        return None
+        # the statement runs only on the outcome "K is NOT a key": the case split is there, the arms are the wrong way round
+        return ('inverted', inverted) if inverted is not None else None
     t, y, y2 = found
+    if get is not None:
+        # v holds this token's answer when it is tested: its one binding lies on every path from the loop header to the test
+        b_ids = set(cfg.nodes_for(get['bind'])) if isinstance(get['bind'], ast.stmt) else set()
+        if not b_ids:      # walrus: bound in the node of its test
+            b_ids = {n.id for n in cfg.live_nodes() if any(x is get['bind'] for x in n.walk())}
+        if not b_ids or not b_ids <= inside:
+            raise UnknownIdiom('%s: %s is not bound inside the token loop' % (f.qual, get['var']))
+        if t.id not in b_ids and flow.find_path(cfg, [b for i in iters for (b, l) in cfg.succ[i] if l == 'next'], [t.id],
+                                                avoid_nodes=b_ids, edge_filter=flow.no_exc) is not None:
+            raise UnknownIdiom('%s: %s is tested on a path that has not bound it in this iteration' % (f.qual, get['var']))
     # the key local is not re-bound between the test and the lookup (it is bound once in the loop: checked by the caller)
-    if isinstance(lk.slice, ast.Name):
+    elif isinstance(lk.slice, ast.Name):
         b_ids = [i for s, _v in _assignments(loop, lk.slice.id) for i in cfg.nodes_for(s)]
         if b_ids and flow.find_path(cfg, [y], b_ids, avoid_nodes=iters, edge_filter=flow.no_exc) is not None:
             raise UnknownIdiom('%s: %s is re-bound between the membership test and the lookup' % (f.qual, lk.slice.id))
@@ -1878,7 +1983,8 @@ def _exactly_once(run, f: Func, cfg, infos):
         run.ok(what, f.loc(), '%s: %d token loop(s)' % (f.qual, len(loops)))
 
 
-def _check_one_lookup(run, f: Func, klen: int, lk, cfg, parent) -> dict:
+def _check_one_lookup(run, f: Func, klen: int, lk, cfg, parent, get=None) -> dict:
+    """lk: the subscription `_HEX_TO_BYTE[K]`, or -- with `get` -- the one read of the local bound to `_HEX_TO_BYTE.get(K)`."""
     p = run.project
     # enclosing statement, try, loop
     stmt = lk
@@ -1903,7 +2009,9 @@ def _check_one_lookup(run, f: Func, klen: int, lk, cfg, parent) -> dict:
     where = f.loc(lk)
 
     # 1. key = first klen characters of the token
-    key = lk.slice
+    key = lk.slice if get is None else get['key']
+    if get is not None and not any(x is get['bind'] for x in ast.walk(loop)):
+        raise UnknownIdiom('%s: %s is bound outside the token loop' % (f.qual, get['var']))
     if isinstance(key, ast.Name):
         binds = [b for b in _assignments(loop, key.id)]
         if len(binds) != 1 or binds[0][1] is None:
@@ -1952,9 +2060,18 @@ def _check_one_lookup(run, f: Func, klen: int, lk, cfg, parent) -> dict:
         # happens to the tokens then (start over on a re-initialised accumulator) is decided by _exactly_once
         run.ok('a malformed escape ends the optimistic pass in a KeyError arm outside the loop (the tokens are read again from there)',
                f.loc(outer_try), stmt)
-    elif try_ is None:
-        guard = _membership_guard(p, f, cfg, loop, stmt, lk)
-        if guard is None:
+    elif try_ is None or get is not None:
+        guard = _membership_guard(p, f, cfg, loop, stmt, lk, get)
+        if guard is not None and guard[0] == 'inverted':
+            run.fail('the table byte is emitted for the tokens whose key IS in _HEX_TO_BYTE (the case split is the wrong way round)', f, stmt,
+                     where=where, witness=['%s runs only when %s is not a key: test %s' % (short(stmt, 60), short(key, 40), short(guard[1].ast, 60))],
+                     runtime_witness="decode('%zz') raises " + ('KeyError' if get is None else 'TypeError (None + bytes)') + "; decode('%41') == '%41'")
+        elif guard is None and get is not None:
+            if any(isinstance(x, ast.Name) and x.id == get['var'] for n in cfg.live_nodes() if n.kind == 'test' for x in n.walk()):
+                raise UnknownIdiom('%s: the test on %s (result of _HEX_TO_BYTE.get) is not read' % (f.qual, get['var']))
+            run.fail('a malformed escape stays literal (the result of _HEX_TO_BYTE.get() is used without a test for None)', f, stmt, where=where,
+                     runtime_witness="decode('%zz') raises TypeError (None + bytes)")
+        elif guard is None:
             run.fail('a malformed escape stays literal (the lookup is not inside try/except KeyError)', f, stmt, where=where,
                      runtime_witness="decode('%zz') raises KeyError")
         else:
@@ -1963,7 +2080,7 @@ def _check_one_lookup(run, f: Func, klen: int, lk, cfg, parent) -> dict:
             test, absent = guard
             if not absent:
                 run.fail("a malformed escape is re-emitted literally as b'%' + the whole token", f, test.ast, where='%s:%s' % (f.file, test.lineno),
-                         witness=['nothing is emitted when %s is not a key of _HEX_TO_BYTE' % short(lk.slice, 40)],
+                         witness=['nothing is emitted when %s is not a key of _HEX_TO_BYTE' % short(key, 40)],
                          runtime_witness="decode('%zz') != '%zz'")
             else:
                 ems = [_emission(s) for s in absent]
@@ -1971,7 +2088,7 @@ def _check_one_lookup(run, f: Func, klen: int, lk, cfg, parent) -> dict:
                     raise UnknownIdiom('%s: the arm for a key missing from _HEX_TO_BYTE: %s' % (f.qual, '; '.join(short(s, 60) for s in absent)))
                 op2, acc2, val2 = ems[0]
                 ok = (op2 == op and acc2 == acc and isinstance(val2, ast.BinOp) and isinstance(val2.op, ast.Add)
-                      and isinstance(val2.left, ast.Constant) and val2.left.value == b'%' and isinstance(val2.right, ast.Name) and val2.right.id == tok)
+                      and _is_percent(p, f, val2.left) and isinstance(val2.right, ast.Name) and val2.right.id == tok)
                 run.check(ok, "a malformed escape is re-emitted literally as b'%' + the whole token", f, absent[0], where=f.loc(absent[0]),
                           runtime_witness="decode('%zz') != '%zz'")
     else:
@@ -1986,7 +2103,7 @@ def _check_one_lookup(run, f: Func, klen: int, lk, cfg, parent) -> dict:
                 raise UnknownIdiom('%s: KeyError arm %s' % (f.qual, short(h, 80)))
             op2, acc2, val2 = ems[0]
             ok = (op2 == op and acc2 == acc and isinstance(val2, ast.BinOp) and isinstance(val2.op, ast.Add)
-                  and isinstance(val2.left, ast.Constant) and val2.left.value == b'%' and isinstance(val2.right, ast.Name) and val2.right.id == tok)
+                  and _is_percent(p, f, val2.left) and isinstance(val2.right, ast.Name) and val2.right.id == tok)
             run.check(ok, "a malformed escape is re-emitted literally as b'%' + the whole token", f, h.body[0], where=f.loc(h),
                       runtime_witness="decode('%zz') != '%zz'")
 
@@ -2124,7 +2241,7 @@ def r4_decoder_paths(run):
     m = p.module(URI)
     paths = {}
     for name, f in sorted(m.functions.items()):
-        loop = _check_decode_path(run, f, klen)
+        loop = _check_decode_path(run, f, klen, hexmap)
         if loop is not None:
             paths[f.qual] = loop
     dec = p.func(URI + '.decode')
@@ -2148,10 +2265,15 @@ def r4_decoder_paths(run):
         return (isinstance(c, ast.Call) and isinstance(c.func, ast.Attribute) and c.func.attr == 'replace' and len(c.args) == 2
                 and all(isinstance(a, ast.Constant) for a in c.args) and c.args[0].value == '+' and c.args[1].value == ' ')
 
+    def split_sep(c):
+        # the separator literal, written in place or as a module-level constant (`_PERCENT = b'%'`)
+        v = p.fold(dec.module, c.args[0], None, dec)
+        return None if v is UNKNOWN else v
+
     def is_split(c):
         # the tokenising split, with or without a bound (the bound is decided below: _r4_unbounded_tokens)
         return (isinstance(c, ast.Call) and isinstance(c.func, ast.Attribute) and c.func.attr in ('split', 'rsplit') and len(c.args) >= 1
-                and isinstance(c.args[0], ast.Constant) and c.args[0].value in (b'%', '%'))
+                and split_sep(c) in (b'%', '%'))
 
     rep_nodes = [n for n in cfg.live_nodes() if any(is_replace(c) for c in n.calls())]
     split_nodes = [n for n in cfg.live_nodes() if any(is_split(c) for c in n.calls())]
@@ -2244,7 +2366,7 @@ def r4_decoder_paths(run):
     u = _utf8_encode_of(recv, tv)
     if u is None:
         raise UnknownIdiom('decode(): split receiver %s' % short(call.func.value, 60))
-    run.check(u and call.args[0].value == b'%', 'the text is re-encoded as UTF-8 (lossless) and split at b"%"', dec, recv,
+    run.check(u and split_sep(call) == b'%', 'the text is re-encoded as UTF-8 (lossless) and split at b"%"', dec, recv,
               where='%s:%s' % (dec.file, sp.lineno), runtime_witness="decode('\\u00e9%41') raises or mangles the non-ASCII character")
     # tail call into the joiners with the token list
     if not (sp.kind == 'stmt' and isinstance(sp.ast, ast.Assign) and len(sp.ast.targets) == 1 and isinstance(sp.ast.targets[0], ast.Name)):
@@ -2994,6 +3116,14 @@ def _sep_atom(e, host: str) -> Optional[bool]:
         if isinstance(op, (ast.In, ast.NotIn)) and isinstance(l, ast.Constant) and isinstance(l.value, str) and ':' in l.value \
                 and isinstance(r, ast.Name) and r.id == host:
             return isinstance(op, ast.In)
+        # `host.count(':') == 1` and the like: the outcome on which the count cannot be 0 is "found"
+        if isinstance(l, ast.Call) and isinstance(l.func, ast.Attribute) and l.func.attr == 'count' and isinstance(l.func.value, ast.Name) \
+                and l.func.value.id == host and len(l.args) == 1 and not l.keywords and isinstance(l.args[0], ast.Constant) \
+                and isinstance(l.args[0].value, str) and ':' in l.args[0].value and isinstance(r, ast.Constant) and type(r.value) is int \
+                and isinstance(op, (ast.Eq, ast.NotEq, ast.Lt, ast.LtE, ast.Gt, ast.GtE)):
+            k = r.value
+            zero_true = {ast.Eq: 0 == k, ast.NotEq: 0 != k, ast.Lt: 0 < k, ast.LtE: 0 <= k, ast.Gt: 0 > k, ast.GtE: 0 >= k}[type(op)]
+            return not zero_true      # True: e true => count >= 1; False: e false => count >= 1
     return None
 
 
